@@ -558,7 +558,30 @@ func (P *Prog) checkMergeOrder(r *Result) {
 			return nil
 		}
 		if ci.static == fn {
-			return []pathItem{{kind: "FOLD", in: in}}
+			// the fold `acc = acc.Merge(o)`: the accumulated schema is the receiver (it comes first, so the
+			// later operand wins) and the next of the remaining operands is the argument
+			prob := ""
+			args := ci.instr.Common().Args
+			fromOthers := func(v ssa.Value) bool {
+				if len(fn.Params) < 3 {
+					return false
+				}
+				for _, rt := range P.rootsOf(v) {
+					if rt.kind == rkParam && rt.v == ssa.Value(fn.Params[2]) {
+						return true
+					}
+				}
+				return false
+			}
+			switch {
+			case len(args) < 2:
+				prob = "the fold passes no operand"
+			case fromOthers(args[0]):
+				prob = "the fold makes one of the remaining operands the receiver: the accumulated schema would override it on conflicts and its tests would run last"
+			case !fromOthers(args[1]):
+				prob = "the fold does not merge the next of the remaining operands into the accumulated schema"
+			}
+			return []pathItem{{kind: "FOLD", val: prob, in: in}}
 		}
 		if ci.static != nil && originName(ci.static) == "maps.Copy" {
 			return []pathItem{{kind: "COPY:schema", val: ownerName(ci.instr.Common().Args[1]), in: in}}
@@ -610,12 +633,16 @@ func (P *Prog) checkMergeOrder(r *Result) {
 	}
 	// the fold over the remaining operands happens in a loop, after every copy of the first two
 	loopOK, sawFold := true, false
+	foldProblem := ""
 	for _, p := range res.paths {
 		fi := p.index("FOLD")
 		if fi < 0 {
 			continue
 		}
 		sawFold = true
+		if p.items[fi].val != "" && foldProblem == "" {
+			foldProblem = p.items[fi].val + " (" + P.ipos(p.items[fi].in) + ")"
+		}
 		inLoop := false
 		for _, it := range p.items[:fi] {
 			if it.kind == "LOOP" && it.val == "iter" {
@@ -631,7 +658,9 @@ func (P *Prog) checkMergeOrder(r *Result) {
 			}
 		}
 	}
-	if loopOK && sawFold {
+	if foldProblem != "" {
+		r.bad("C16/operand-order", "Merge#others", P.pos(fn.Pos()), foldProblem)
+	} else if loopOK && sawFold {
 		r.ok("C16/operand-order", "Merge#others", P.pos(fn.Pos()), "remaining operands folded left after receiver and first operand")
 	} else {
 		r.bad("C16/operand-order", "Merge#others", P.pos(fn.Pos()), "the additional operands are not folded in order after the first two")
